@@ -35,6 +35,7 @@ var (
 	ErrDBNotSelected     = errors.New("database not been selected")
 	ErrFieldAmbiguous    = errors.New("field is ambiguous")
 	ErrFieldNotFound     = errors.New("field not found")
+	ErrFieldRepeated     = errors.New("column specified more than once")
 	ErrTableAlreadyExist = errors.New("table already exists")
 	ErrTableNotExist     = errors.New("table does not exist")
 	ErrTypeMismatch      = errors.New("types do not match")
@@ -50,9 +51,15 @@ func IsCatalogTable(name string) bool {
 }
 
 // checkColumns reports ErrFieldNotFound if cols names a column the relation
-// does not have. A value given for such a column would be dropped silently.
+// does not have, and ErrFieldRepeated if it names a column twice. A value
+// given for such a column would be dropped silently.
 func (r *Relation) checkColumns(cols []string) error {
-	for _, col := range cols {
+	for i, col := range cols {
+		for _, prev := range cols[:i] {
+			if prev == col {
+				return fmt.Errorf("%w: %s", ErrFieldRepeated, col)
+			}
+		}
 		found := false
 		for _, fd := range r.Fields {
 			if fd.Name == col {
